@@ -163,6 +163,179 @@ fn cfg_enabled(c: &LengthDelimitedCodec) -> bool {
     c.compression_enabled()
 }
 
+// ---------- sparse vectors (tensor_store::SparseVector, EmbeddingValidator) ----------
+use tensor_chain::message_validation::EmbeddingValidator;
+use tensor_store::sparse_vector::SparseVectorBuilder;
+use tensor_store::SparseVector;
+
+#[derive(serde::Serialize)]
+struct RawSparse {
+    dimension: usize,
+    positions: Vec<u32>,
+    values: Vec<f32>,
+}
+
+/// a `SparseVector` exactly as a decoder hands it over: no constructor, no invariant
+fn raw_sparse(dim: usize, pos: &[u32], vals: &[u32]) -> SparseVector {
+    let raw = RawSparse { dimension: dim, positions: pos.to_vec(), values: vals.iter().map(|b| f32::from_bits(*b)).collect() };
+    bitcode::deserialize(&bitcode::serialize(&raw).unwrap()).unwrap()
+}
+fn show_u32s(v: &[u32]) -> String {
+    if v.is_empty() { "-".into() } else { v.iter().map(|x| x.to_string()).collect::<Vec<_>>().join(",") }
+}
+fn show_bits(v: &[f32]) -> String {
+    if v.is_empty() { "-".into() } else { v.iter().map(|x| x.to_bits().to_string()).collect::<Vec<_>>().join(",") }
+}
+fn show_sv(s: &SparseVector) -> String {
+    format!("{}|{}|{}", s.dimension(), show_u32s(s.positions()), show_bits(s.values()))
+}
+fn gen_bits(r: &mut Rng) -> u32 {
+    match r.below(16) {
+        0 | 1 | 2 => 0,                       // +0.0
+        3 => 0x8000_0000,                     // -0.0
+        4 => 0x7FC0_0000,                     // NaN
+        5 => 0xFFC0_0001,                     // -NaN with payload
+        6 => 0x7F80_0000,                     // +inf
+        7 => 0xFF80_0000,                     // -inf
+        8 => 1,                               // smallest subnormal
+        9 => 0x8000_0001,
+        10 => 0x3F80_0000,                    // 1.0
+        11 => 0xC020_0000,                    // -2.5
+        12 => 0x7F7F_FFFF,                    // MAX
+        13 => 0x7F80_0001,                    // signalling NaN
+        _ => r.next_u64() as u32,
+    }
+}
+fn val_class(e: &tensor_chain::ChainError) -> &'static str {
+    let t = e.to_string();
+    if t.contains("dimension cannot be zero") { "zero_dim" }
+    else if t.contains("NaN value") { "nan" }
+    else if t.contains("infinite value") { "inf" }
+    else if t.contains("magnitude") { "magnitude" }
+    else if t.contains("out of bounds") { "pos_oob" }
+    else if t.contains("not strictly sorted") { "not_sorted" }
+    else if t.contains("exceeds maximum") { "dim_too_large" }
+    else if t.contains("positions") && t.contains("values") { "len_mismatch" }
+    else { "other" }
+}
+
+fn stream_sparse(rep: &mut Report, m: &mut Model, root: &Rng, scale: u64) {
+    // ---- directed: a decoded vector whose two arrays differ in length
+    {
+        let sv = raw_sparse(4, &[0, 2], &[0x3F80_0000]);
+        let v = EmbeddingValidator::new(65536, f32::INFINITY);
+        let verdict = match v.validate(&sv, "f") { Ok(()) => "ok", Err(e) => val_class(&e) };
+        let got = guarded(|| sv.get(2));
+        if verdict == "ok" && got.is_err() {
+            rep.violation(
+                "tensor_chain.message_validation.embedding/accepts_vector_that_panics",
+                "EmbeddingValidator::validate accepts a decoded SparseVector with positions.len() != values.len(); SparseVector::get then panics",
+                json!({"dimension": 4, "positions": "0,2", "values_bits": "1065353216", "then": "get(2)"}),
+            );
+        }
+        rep.hit(&format!("sparse.directed.len_mismatch.{verdict}"));
+    }
+    let mut r = root.fork("sparse");
+    for _ in 0..2500 * scale {
+        // dense -> sparse -> dense
+        let n = match r.below(8) { 0 => 0, 1 => 1, _ => 2 + r.below(14) as usize };
+        let dense: Vec<u32> = (0..n).map(|_| gen_bits(&mut r)).collect();
+        let dense_f: Vec<f32> = dense.iter().map(|b| f32::from_bits(*b)).collect();
+        let txt = show_u32s(&dense);
+        let sv = SparseVector::from_dense(&dense_f);
+        rep.compare("sparse.from_dense", || json!({"dense_bits": txt}), &format!("ok {}", show_sv(&sv)), &m.ask(&format!("sp_from_dense {txt}")));
+        let back = sv.to_dense();
+        rep.compare("sparse.to_dense", || json!({"sv": show_sv(&sv)}), &format!("ok {}", show_bits(&back)),
+            &m.ask(&format!("sp_to_dense {} {} {}", sv.dimension(), show_u32s(sv.positions()), show_bits(sv.values()))));
+        // property: exact round trip up to the sign of zero
+        let want: Vec<u32> = dense.iter().map(|b| if b & 0x7FFF_FFFF == 0 { 0 } else { *b }).collect();
+        if back.iter().map(|x| x.to_bits()).collect::<Vec<_>>() != want {
+            rep.violation("tensor_store.sparse_vector/dense_roundtrip_not_identity", "to_dense(from_dense(d)) != d (bit patterns, zeros normalised)", json!({"dense_bits": txt}));
+        }
+        // threshold variant
+        let t = gen_bits(&mut r);
+        let svt = SparseVector::from_dense_with_threshold(&dense_f, f32::from_bits(t));
+        rep.compare("sparse.from_dense_thr", || json!({"dense_bits": txt, "threshold_bits": t}), &format!("ok {}", show_sv(&svt)), &m.ask(&format!("sp_from_dense_thr {t} {txt}")));
+        rep.case("sparse.dense", if sv.nnz() >= 1 && sv.nnz() < n { Some(&txt) } else { None });
+
+        // from_parts: unsorted, duplicate, zero and out-of-range positions
+        let dim = 1 + r.below(12) as usize;
+        let k = r.below(8) as usize;
+        let ps: Vec<u32> = (0..k).map(|_| if r.chance(1, 12) { dim as u32 + r.below(3) as u32 } else { r.below(dim as u64) as u32 }).collect();
+        let kv = if r.chance(1, 6) { r.below(8) as usize } else { k };
+        let vs: Vec<u32> = (0..kv).map(|_| gen_bits(&mut r)).collect();
+        let vs_f: Vec<f32> = vs.iter().map(|b| f32::from_bits(*b)).collect();
+        let line = format!("sp_from_parts {dim} {} {}", show_u32s(&ps), show_u32s(&vs));
+        let real = SparseVector::try_from_parts(dim, ps.clone(), vs_f.clone());
+        let imp = match &real { Ok(s) => format!("ok {}", show_sv(s)), Err(e) => if e.to_string().contains("exceeds") { "err dim".to_string() } else { "err oob".to_string() } };
+        rep.compare("sparse.from_parts", || json!({"line": line}), &imp, &m.ask(&line));
+        rep.hit(if real.is_ok() { "sparse.from_parts.ok" } else { "sparse.from_parts.oob" });
+        if let Ok(s) = &real {
+            // property: the dense image is the input writes applied in order (zeros skipped)
+            let mut want = vec![0u32; dim];
+            for (p, v) in ps.iter().zip(vs.iter()) { if v & 0x7FFF_FFFF != 0 { want[*p as usize] = *v; } }
+            let got: Vec<u32> = s.to_dense().iter().map(|x| x.to_bits()).collect();
+            if got != want {
+                rep.violation("tensor_store.sparse_vector.from_parts/dense_image_wrong", "to_dense(from_parts(..)) is not the writes applied in order", json!({"line": line}));
+            }
+            // get / set on the constructed vector (only meaningful when positions are unique)
+            let mut sorted = s.positions().to_vec(); sorted.dedup();
+            if sorted.len() == s.positions().len() {
+                let i = r.below(dim as u64 + 1) as usize;
+                if i < dim {
+                    let g = s.get(i);
+                    rep.compare("sparse.get", || json!({"sv": show_sv(s), "i": i}), &g.to_bits().to_string(),
+                        &m.ask(&format!("sp_get {} {} {} {i}", s.dimension(), show_u32s(s.positions()), show_bits(s.values()))));
+                }
+                let x = gen_bits(&mut r);
+                let mut s2 = s.clone();
+                let res = s2.try_set(i, f32::from_bits(x));
+                let imp = match res { Ok(()) => format!("ok {}", show_sv(&s2)), Err(_) => "err oob".to_string() };
+                rep.compare("sparse.set", || json!({"sv": show_sv(s), "i": i, "x": x}), &imp,
+                    &m.ask(&format!("sp_set {} {} {} {i} {x}", s.dimension(), show_u32s(s.positions()), show_bits(s.values()))));
+                rep.hit(if i >= dim { "sparse.set.oob" } else if x & 0x7FFF_FFFF == 0 { "sparse.set.zero" } else { "sparse.set.value" });
+            }
+            rep.case("sparse.parts", if s.nnz() >= 2 { Some(&line) } else { None });
+        }
+        // builder: duplicates keep the last value
+        let mut b = SparseVectorBuilder::new(dim);
+        for (p, v) in ps.iter().zip(vs_f.iter()) { b.push(*p, *v); }
+        let built = b.build();
+        rep.compare("sparse.build", || json!({"dim": dim, "pos": show_u32s(&ps), "vals": show_u32s(&vs)}), &show_sv(&built),
+            &m.ask(&format!("sp_build {dim} {} {}", show_u32s(&ps), show_u32s(&vs[..vs.len().min(ps.len())]))));
+
+        // decoded (unvalidated) vectors: validator verdict, then the accessors must not panic
+        let dim2 = r.below(10) as usize;
+        let k2 = r.below(6) as usize;
+        let mut ps2: Vec<u32> = (0..k2).map(|_| r.below(dim2 as u64 + 2) as u32).collect();
+        if r.chance(3, 4) { ps2.sort_unstable(); ps2.dedup(); }
+        let kv2 = if r.chance(1, 4) { r.below(6) as usize } else { ps2.len() };
+        let vs2: Vec<u32> = (0..kv2).map(|_| if r.chance(1, 8) { gen_bits(&mut r) } else { 0x3F80_0000 + r.below(100) as u32 }).collect();
+        let sv2 = raw_sparse(dim2, &ps2, &vs2);
+        let maxd = *r.pick(&[4usize, 8, 65536]);
+        let v = EmbeddingValidator::new(maxd, f32::INFINITY);
+        let verdict = match v.validate(&sv2, "f") { Ok(()) => "ok", Err(e) => val_class(&e) };
+        let line = format!("sp_validate {maxd} {dim2} {} {}", show_u32s(&ps2), show_u32s(&vs2));
+        rep.compare("sparse.validate", || json!({"line": line}), verdict, &m.ask(&line));
+        rep.hit(&format!("sparse.validate.{verdict}"));
+        if verdict == "ok" {
+            let td = guarded(|| sv2.to_dense());
+            let gets = guarded(|| (0..dim2).map(|i| sv2.get(i).to_bits()).collect::<Vec<_>>());
+            if td.is_err() || gets.is_err() {
+                rep.violation(
+                    "tensor_chain.message_validation.embedding/accepts_vector_that_panics",
+                    "a decoded SparseVector accepted by EmbeddingValidator::validate makes to_dense/get panic",
+                    json!({"line": line}),
+                );
+            }
+        }
+        rep.case("sparse.validate", if verdict == "ok" && !ps2.is_empty() { Some(&line) } else { None });
+        if rep.samples.len() < 16 && verdict == "ok" && ps2.len() >= 2 {
+            rep.sample(json!({"stream":"sparse","validate":line}));
+        }
+    }
+}
+
 fn main() {
     let args = parse_args();
     let mut rep = Report::new(
@@ -459,6 +632,9 @@ fn main() {
             rep.sample(json!({"stream":"frames_v2c","kind":kind,"ser_len":ser.len(),"comp_len":comp.len(),"min_size":min_size,"enabled":enabled}));
         }
     }
+
+    // ---- stream 6: sparse vectors and the embedding validator
+    stream_sparse(&mut rep, &mut m, &root, scale);
 
     rep.note("lossy codecs (tensor-train, quantisation) are not modelled in this stream; see DESIGN.md C20");
     rep.write(&args.out);
